@@ -11,7 +11,7 @@ import Tahoe.Mutable.CheckRepairLemmas
 | "…or picks between competing versions with the same sequence number" | `repair_refuses_merge` |
 | "a successful repair leaves the best version's contents unchanged" | `repair_republishes_best` (the version chosen is the best of the full map; new seqnum above every share in it), `download_version_exact` + `repair_uploads_best_or_nothing` (what is downloaded — from whatever servermap `download_version` ends up consulting — is that version or the repair fails); byte-level equality of download/upload is C09/C10 territory: monitor only here |
 | "…and recoverable from N distinct shares" | composition, stated in C47: `update_goal_covers` (the republish has a proxy for every share number < N) + `success_implies_k_stored` (success ⇒ ≥ k of them stored; all N only if no request failed — `bookkeeping_sound`); and C47 `fault_free_publish_stores_all`: a republish in which no request fails stores all N share numbers |
-| with verify, "N distinct shares" means N distinct GOOD shares: the verifier finds damage the servermap update cannot see | no theorem (the verifier's hash checks are C10's subject; `healthy_iff` starts from the map the verifier leaves behind). Checked by monitors on real grids: a flipped byte in block data, the block-hash-tree root, the encrypted private key (defect repaired as 93bab9f) or the verification key (open finding `verify-misses-corrupt-verification-key`, fixes/C14-verify-verification-key.diff) of one share must make `check(verify=True)` and `check_and_repair(verify=True)` report unhealthy, list that share as corrupt, and agree with each other. Observed and not demanded by the statement: with two damaged shares the verifier lists only the first it meets (health is still False) |
+| with verify, "N distinct shares" means N distinct GOOD shares: the verifier finds damage the servermap update cannot see | the verdict given the verifier's marks: `healthy_with_verify_iff` (every set of marks). WHICH shares get marked is not a theorem here (the verifier's hash checks are C10's subject). Checked by monitors on real grids: a flipped byte in block data, the block-hash-tree root, the encrypted private key (defect repaired as 93bab9f) or the verification key (defect repaired as 5d94ff9) of one share must make `check(verify=True)` and `check_and_repair(verify=True)` report unhealthy, list that share as corrupt, and agree with each other. Observed and not demanded by the statement: with two damaged shares the verifier lists only the first it meets (health is still False) |
 -/
 namespace Tahoe.C14
 open Tahoe.Mutable Tahoe.Mutable.ServerMap Tahoe.Mutable.Check
